@@ -76,6 +76,12 @@ CHECKS.update({
   note="file-name bytes are symbolic (solver); the history of edits is enumerated by forking; the compiler's answers are the working tree's compiler's, pre-computed through the bridge; natively the same harness runs on a real directory with the real compiler; lines are not sent (ordering across reloads is C20)"),
 })
 
+CHECKS.update({
+ "C16": dict(level="model_checking", ref="DESIGN.md 4 C16",
+  text="bounded model checking of the real newFileStream / fileStream.stream goroutines and LineReader over a model file system (inodes, descriptors that outlive rename/unlink, Seek, Stat/SameFile): every history of 3 (thorough 4) steps over {append line, append fragment, append CRLF line, truncate, rename+create, copy+truncate, delete, re-create, poll} with arbitrary payload bytes, the stream woken and run to idle after each step, then tailing stopped; the delivered lines equal the property's sentence evaluated over the history (every appended line once, in order; a fragment left at the end of a generation delivered once, verbatim, never glued to later data)",
+  note="histories are enumerated by forking, payload bytes and line comparisons are the solver's; goroutines under the engine's deterministic scheduler, 'observed each step' realised by a harness waker; natively the same harness runs on a real directory with real goroutines; one payload byte per append (longer data: C15)"),
+})
+
 NOT_APPLICABLE = {
  "C03": "whole compiler front end on arbitrary bytes: channel-driven lexer, goyacc tables, HM unification over a pointer graph, regexp/syntax - symbolic bytes fork at every character class and reach stdlib parsers that cannot be encoded (DESIGN.md 4 C03)",
  "C17": "behaviour lives in kernel pipe/socket semantics and real goroutine interleavings; a faithful stub would re-implement net (DESIGN.md 4 C17)",
